@@ -183,7 +183,18 @@ def r15_1(prog, out):
 def r15_2(prog, out):
     A = prog.anchors
     sl = Slicer(prog)
-    target = A.ty("Subscription") + "::pull_messages"
+    # the door(s) to the lease request: methods of the subscription handle that build it, and handle methods wrapping those
+    from actorlib import roles
+    R = roles(prog)
+    handle = A.ty("Subscription")
+    builders = {prog.facts.body(b).root or b for b, _, _, _ in prog.constructions(R.sub_actor.request, R.pull_variant())}
+    targets = set(builders)
+    for b in prog.facts.lib_bodies():
+        if b.impl_self == handle and b.kind in ("AssocFn", "Fn") and b.id not in targets:
+            if any((prog.facts.body(c).root or c) in builders for c in prog.cone(b.id, follow=("call", "closure", "poll")) if prog.facts.body(c) is not None and c != b.id):
+                targets.add(b.id)
+    if not targets:
+        raise CheckBroken("no handle method builds the lease request")
     fields = {("crate::pubsub_proto::PullRequest", "max_messages"), ("crate::pubsub_proto::StreamingPullRequest", "max_outstanding_messages")}
     n = 0
     for name in ("pull", "streaming_pull"):
@@ -194,8 +205,20 @@ def r15_2(prog, out):
             bi = prog.info(bid)
             if bi is None:
                 continue
-            for bb, t in bi.calls(lambda c: c.target == target):
-                s = sl.of_resolved(bid, t.args[1])
+            if (prog.facts.body(bid).root or bid) in targets and prog.facts.body(prog.facts.body(bid).root or bid).impl_self == handle:
+                continue       # a wrapper calling the builder: judged at the wrapper's own call site
+            doors = []
+            for bb, t in bi.calls(lambda c: prog.qual(bi.body, c.target) in targets):
+                doors.append((bb, [a for a in t.args[1:] if (bi.body.operand_ty(a) or "") in ("u16", "u32", "usize", "u64", "i32")]))
+            # the handle method may have been written (or spliced) into the handler: the request is built right here
+            for (cb, cbb, ci, crv) in prog.constructions(R.sub_actor.request, R.pull_variant()):
+                if cb == bid:
+                    doors.append((cbb, [a for a in crv.ops if (bi.body.operand_ty(a) or "") in ("u16", "u32", "usize", "u64", "i32")]))
+            for bb, lim in doors:
+                if not lim:
+                    out.undecided("limit:%s:%s" % (name, prog.short(bid)), bi.loc(bb), "no integer limit argument")
+                    continue
+                s = sl.of_resolved(bid, lim[0])
                 key = "limit:%s:%s" % (name, prog.short(bid))
                 src = s.fields & fields
                 n += 1
@@ -321,3 +344,102 @@ def r15_4(prog, out):
                 out.violation(key, bi.loc(bb), "the streamed item's messages are not built from the pull of the same iteration (%r)" % o)
         if not cons:
             raise CheckBroken("no StreamingPullResponse built in the streaming loop")
+
+
+def first_iteration_runs(bi):
+    """blocks behind the exit edge of a loop guard `result.len() < limit` that cannot be taken on the first arrival: `result`
+    is a vector this body created (still empty before the first pop) and `limit` is at least 1 (`x.max(1)`, a constant >= 1).
+    A path that avoids every pop can only reach the guard with an empty result, so for that search the exit edge is dead."""
+    from mapstate import _bool_switches
+    body = bi.body
+    dead = set()
+
+    def fresh_vec_len(op):
+        o = bi.trace(op)
+        if o.kind != "call" or o.path:
+            return False
+        t = bi.call_at(o.data)
+        if t.callee is None or not t.callee.path.endswith("::len") or "Vec" not in t.callee.path:
+            return False
+        v = bi.trace(t.args[0], transparent=None)
+        if v.kind != "call" or v.path:
+            return False
+        c = bi.call_at(v.data).callee
+        return c is not None and c.path.split("::")[-1] in ("new", "with_capacity", "default") and "Vec" in c.path
+
+    def at_least_one(op, depth=0):
+        if op.const_int() is not None:
+            return op.const_int() >= 1
+        if depth > 4:
+            return False
+        o = bi.trace(op)
+        if o.kind == "cast" and not o.path:
+            return at_least_one(bi.stmt(*o.data).rv.ops[0], depth + 1)
+        if o.kind == "call" and not o.path:
+            t = bi.call_at(o.data)
+            n = t.callee.path.split("::")[-1] if t.callee is not None else ""
+            if n == "max" and len(t.args) == 2:
+                return any(at_least_one(a, depth + 1) for a in t.args)
+            if n == "clamp" and len(t.args) == 3:
+                return at_least_one(t.args[1], depth + 1)
+        return False
+
+    for blk in body.blocks:
+        if blk.cleanup or blk.idx not in bi.cfg.reach:
+            continue
+        for st in blk.stmts:
+            if st.k == "assign" and st.lhs.is_local() and st.rv.k == "bin" and st.rv.j["op"] in ("Lt", "Gt", "Le", "Ge", "Ne"):
+                a, b2 = st.rv.ops
+                op = st.rv.j["op"]
+                # normalise to len OP limit
+                if fresh_vec_len(a) and at_least_one(b2):
+                    true_when_empty = op in ("Lt", "Le", "Ne")          # 0 < L, 0 <= L, 0 != L  with L >= 1
+                elif fresh_vec_len(b2) and at_least_one(a):
+                    true_when_empty = op in ("Gt", "Ge", "Ne")          # L > 0 ..
+                else:
+                    continue
+                if not true_when_empty:
+                    continue
+                for sw, tr, fa in _bool_switches(bi, st.lhs.local):
+                    if fa is not None:
+                        dead |= bi.cfg.edge_dominated(sw, fa)
+    return dead
+
+
+@rule("C15", "R15.5", "the lease handler answers without popping only when the backlog is empty (or the subscription deleted)", floor=1)
+@rule("C01", "R15.5", "the lease handler answers without popping only when the backlog is empty (or the subscription deleted)", floor=1)
+@rule("C06", "R15.5", "the lease handler answers without popping only when the backlog is empty (or the subscription deleted)", floor=1)
+def r15_5(prog, out):
+    """A pull that finds messages waiting hands out at least one.  Every normal path through the handler that pops the
+    backlog either attempts a pop, or runs where the backlog was found empty by an exact test (`is_empty()`, `len() == 0`
+    -- not a narrowed or capped copy of the length), or under the actor's deleted flag.  A count computed as
+    `min(limit, len as u16)` is zero for a backlog of 65536: the handler answers empty for ever although messages wait."""
+    from actorlib import roles
+    from props.c11 import flag_regions
+    from props.c12 import error_blocks
+    from props.c13 import emptiness_regions
+    R = roles(prog)
+    A = prog.anchors
+    flag = A.cell("SubscriptionActor", "deleted", optional=True)
+    n = 0
+    for bid, effs in R.poppers():
+        bi = prog.info(bid)
+        pops = {e.bb for e in effs if e.touches(R.backlog) and e.kind in L.REMOVE_KINDS}
+        if not pops:
+            continue
+        n += 1
+        key = "pop-or-empty:%s" % prog.short(bid)
+        _fa, deleted = flag_regions(prog, bi, flag)
+        empty, _ne = emptiness_regions(prog, bi)
+        esc = bi.cfg.escapes(0, pops | deleted | error_blocks(bi) | empty | first_iteration_runs(bi), after=False)
+        if esc is None:
+            out.holds(key, prog.loc(bid), "every normal path attempts a pop, or knows the backlog is empty / the subscription deleted")
+        else:
+            site = esc[-1]
+            for x in esc:
+                if bi.body.blocks[x].term.k == "switch":
+                    site = x
+            out.violation(key, bi.loc(site), "the handler can answer without looking at the backlog on a path that is not guarded by an exact emptiness test: "
+                          "a pull returns nothing although messages are waiting", ["bb%d (%s)" % (x, bi.loc(x)) for x in esc][:8])
+    if n == 0:
+        raise CheckBroken("no handler pops the backlog")
